@@ -114,9 +114,13 @@ class CuckooSuite(Suite):
         d = {"ret": ret, "count": str(obj.elements_added), "cap": str(obj.capacity), "geom": f"{obj.bucket_size},{obj.max_swaps}", "fpbits": str(obj.fingerprint_size_bits)}
         if kind == "cc":
             d["table"] = "/".join(".".join(f"{b.finger}x{b.count}" for b in bkt) for bkt in obj.buckets)
+            d["fps"] = "/".join(".".join(str(int(b.finger)) for b in bkt) for bkt in obj.buckets)
+            d["zeros"] = str(sum(1 for bkt in obj.buckets for b in bkt if b.count == 0))
             d["unique"] = str(obj.unique_elements)
         else:
             d["table"] = "/".join(".".join(str(int(f)) for f in bkt) for bkt in obj.buckets)
+            d["fps"] = d["table"]
+            d["zeros"] = "0"
         return d
 
     def run_real(self, seq):
